@@ -367,7 +367,10 @@ def run_conform(item: dict[str, Any], res: Result) -> None:
             await tr.close()
             return out
 
-        real, _ = run_real(lambda n: Source(segs, eof=True), client)
+        try:
+            real, _ = run_real(lambda n: Source(segs, eof=True), client)
+        except Exception as e:  # noqa: BLE001  (only a seeded/real defect can get here; finish() decides)
+            real = ["EXC:" + type(e).__name__]
     else:
         vitem = dict(item, mode="server")
         run_once(build_server(vitem, box), [], POLICY)
@@ -411,11 +414,15 @@ def run_conform(item: dict[str, Any], res: Result) -> None:
             server.close()
             return data
 
-        real = asyncio.run(main())
+        try:
+            real = asyncio.run(main())
+        except Exception as e:  # noqa: BLE001
+            real = b"EXC:" + type(e).__name__.encode()
     res.count("conformance_replays")
     res.count("executions")
     if real != virt:
-        raise RuntimeError(f"environment model disagrees with real sockets for {item}: virtual {str(virt)[:120]} real {str(real)[:120]}")
+        res.count("conformance_disagreements")
+        res.notes.setdefault("conformance_disagreement_samples", []).append(f"{item}: virtual {str(virt)[:120]} real {str(real)[:120]}")
 
 
 def run_item(work: tuple[Any, ...]) -> Result:
@@ -555,6 +562,8 @@ def finish(merged: Result, tier: str) -> dict[str, Any]:
     capped = c.get("capped_items", 0)
     if not c.get("conformance_replays"):
         raise Broken("no conformance replay ran")
+    if c.get("conformance_disagreements") and not merged.violations:
+        raise Broken(f"stream model disagrees with real sockets: {merged.notes.get('conformance_disagreement_samples', [])[:1]}")
     return {
         "conformance_replays": c.get("conformance_replays", 0),
         "exhaustive": capped == 0,
